@@ -1,5 +1,5 @@
 import QbVerif.Model.IpcsLife
-import QbVerif.Lemmas.IpcsLifeInvExec3
+import QbVerif.Lemmas.IpcsLifeInvTop
 
 /-!
 C04 — IPC server: callback order accept, created, msg*, closed+, destroyed; no use-after-free.
@@ -208,18 +208,50 @@ theorem nested_calls_safe (f : Nat) (s : St) (self : Nat) (os : List SOp) (hi : 
 
 example : ∃ s : St, Inv s := ⟨initFixed, initFixed_inv⟩
 
-/-
-Full statements (NOT proved; sampled by the differential check against the real code):
+/-! ### history level, staged: from ANY state inside the invariant, histories of script definitions and
+    API calls from outside callbacks (each with everything it triggers inside callbacks) -/
 
-theorem callback_order (ops : List Op) : anyBad (run initFixed ops) = false
-theorem destroyed_once_and_last / destroyed_only_at_refcount_zero : consequences of the above by
-  monitor_flags_anything_after_destroyed / monitor_flags_destroyed_with_references
+/-- callback_order / destroyed_once_and_last / destroyed_only_at_refcount_zero, `_partial`: for every
+    state inside the invariant and EVERY history of `script` and `disc/ref/unref/ev/iter` operations
+    (the callbacks they trigger run arbitrary scripts), the monitor flag of every connection stays
+    clear: no callback out of the order accept (created msg* closed(≠0)* closed(0))? destroyed, no
+    `closed` after it returned 0, nothing after `destroyed`, `destroyed` only at library and
+    application reference count zero (see the monitor_flags_* theorems). -/
+theorem callback_order_partial (s : St) (hi : Inv s) (ops : List Op) (h : ∀ op, op ∈ ops → ApiOp op)
+    (i : Nat) : ((run s ops).conns i).bad = false :=
+  ((run_api_inv ops s hi h).conn i).nb
+
+/-- no_touch_after_free, `_partial` (same histories; connections only, not the service object) -/
+theorem no_touch_after_free_partial (s : St) (hi : Inv s) (ops : List Op) (h : ∀ op, op ∈ ops → ApiOp op)
+    (i : Nat) : ((run s ops).conns i).uaf = false :=
+  ((run_api_inv ops s hi h).conn i).nu
+
+/-- destroyed_only_at_refcount_zero, `_partial`: the count is the sum of its owners throughout -/
+theorem refcount_is_sum_of_owners_partial (s : St) (hi : Inv s) (ops : List Op)
+    (h : ∀ op, op ∈ ops → ApiOp op) (i : Nat) :
+    ((run s ops).conns i).rc = b2n ((run s ops).conns i).init + ((run s ops).conns i).appref +
+      b2n ((run s ops).conns i).brCreated + b2n ((run s ops).conns i).brDispatch +
+      b2n ((run s ops).conns i).brWalk :=
+  ((run_api_inv ops s hi h).conn i).R
+
+example : ∃ (s : St) (ops : List Op), Inv s ∧ (∀ op, op ∈ ops → ApiOp op) ∧ ops ≠ [] :=
+  ⟨initFixed, [.app (.d 1), .script .closed [{ ret := 1 }]], initFixed_inv,
+   by intro op h; simp at h; rcases h with h | h <;> subst h <;> trivial, by simp⟩
+
+/-
+Full statements (NOT yet proved; sampled by the differential check against the real code):
+
+theorem callback_order (ops : List Op) (i : Nat) : ((run initFixed ops).conns i).bad = false
+theorem destroyed_once_and_last / destroyed_only_at_refcount_zero : the same flag (monitor_flags_*)
 theorem no_touch_after_free (ops : List Op) : (run initFixed ops).halt = false
 
-Plan: per-connection invariant P (rc = [init] + appref + [brCreated] + [brDispatch] + [brWalk];
-phase determines (st, cl, init) as listed in the model header) preserved by `exec` by induction on
-the fuel, together with the frame facts `cl = running`, `phase = dead ∧ ¬freed`, `phase = accepting`
-and the bracket flags being stable under nested calls.
+Missing: that the remaining external operations preserve `Inv` (+ "no bracket reference is held and
+indices above nconn are unused between operations"): connect (handle_new_connection with the accept
+and created scripts), send / gone (dispatch bracket), job / run (_rerun_closed_job_), destroy (the
+reference-holding walk), half / halfgone, finish; and the service object's own count (svcUaf).
+Available for it: `api_calls_preserve_invariant` + `exec_frame` (bracket flags, cl = RUNNING,
+phase accepting / dead / none are stable under nested calls) + `exec_nconn`, and the
+connection-level lemmas P.refD / P.decD / P.refW / P.decW / P.decC / P.jobReset (Lemmas/IpcsLifeInvConn).
 -/
 
 end QbVerif.Props.C04
